@@ -147,7 +147,10 @@ func (o OneOfSchema[KeyType]) UnserializeType(data any) (result any, err error) 
 	}
 	unserializedMap, ok := unserializedData.(map[string]any)
 	if ok {
-		unserializedMap[o.DiscriminatorFieldNameValue] = discriminator
+		// Store the discriminator in its unserialized form (int64 / string), not in whatever representation
+		// the input happened to use (uint64 after CBOR, int32, a numeric string): Validate and Serialize
+		// only accept the native type.
+		unserializedMap[o.DiscriminatorFieldNameValue] = typedDiscriminator
 		return unserializedMap, nil
 	}
 	return saveConvertTo(unserializedData, o.ReflectedType())
